@@ -216,9 +216,21 @@ def build():
 
     @reg.opaque('opaque_getitem', 'ndarray', 'ndarray[i]: row i of the snapshot')
     def _arr_getitem(ex, st, recv, key):
+        F = gsel(st, 'arr_fid', S.addr(recv.t))
+        if (isinstance(key, tuple) and len(key) == 2 and key[0] == ('slice', None, None) and isinstance(key[1], V)):
+            # snapshot[:, k]: column k of the snapshot — the cells of the column labelled colseq(F)[k] of the frame the SNAPSHOT was taken from
+            k = key[1]
+            if k.ty.kind != 'int':
+                ex.safety(st, 'TypeError', 'ndarray column index', S.is_int(k.t))
+            ex.safety(st, 'IndexError', 'ndarray column index on a 2-d snapshot', gsel(st, 'arr_row', S.addr(recv.t)) == -1)
+            kp = S.ival(k.t)
+            ex.safety(st, 'IndexError', 'ndarray column index', z3.And(kp >= 0, kp < z3.Length(colseq(F))))
+            r = ex.alloc(st, 'Series')
+            gstore(st, 'ser_fid', S.addr(r), F)
+            gstore(st, 'ser_col', S.addr(r), S.at(colseq(F), kp))
+            return V(r, SER)
         if not isinstance(key, V):
             raise Unsupported('ndarray slice')
-        F = gsel(st, 'arr_fid', S.addr(recv.t))
         if key.ty.kind != 'int':
             ex.safety(st, 'TypeError', 'ndarray index', S.is_int(key.t))
         pos = S.ival(key.t)
